@@ -378,3 +378,73 @@ package shaping
 //@   ensures [end-line-only-at-text-end] implies(result0 == endLine, result1.Runes.Count+result1.Runes.Offset == l.breaker.totalRunes && !l.config.TextContinues)
 //@   ensures [truncated-otherwise] implies(result0 == truncated, !(result1.Runes.Count+result1.Runes.Offset == l.breaker.totalRunes && !l.config.TextContinues))
 //@   modifies l.scratch.alt; l.scratch.altAdvance; l.mapper; all(glyphIndex); all(Output)
+//
+// ---------------------------------------------------------------------------------------------
+// Property C07: itemization partitions the text into uniform runs.
+// Assumed contract of the Fontmap interface (documented: "It must always return a valid (non nil) *font.Face"; determinism
+// is the property's implicit hypothesis): ResolveFace is a function faceFor(fontmap, rune) and does not touch the runs.
+//@ opaque faceFor(fm Fontmap, r rune) region
+//@ opaque ignorableRune(r rune) bool
+//@ trusted Fontmap.ResolveFace
+//@   params fm, r
+//@   ensures [non-nil] result != nil && rid(result) == faceFor(fm, r) && off(result) == 0
+//@   modifies nothing
+//@ trusted ignoreFaceChange
+//@   ensures [def] result == ignorableRune(r)
+//@   modifies nothing
+//
+// sameRunFields: everything a splitting pass must not touch.
+//@ spec sameRunFields(a Input, b Input) bool = sameslice(a.Text, b.Text) && a.Direction == b.Direction && sameslice(a.FontFeatures, b.FontFeatures) && a.Size == b.Size && a.Script == b.Script && a.Language == b.Language
+//@ func splitByFace C07
+//@   mode int
+//@   requires 0 <= input.RunStart && input.RunStart <= input.RunEnd && input.RunEnd <= len(input.Text) && len(buffer) <= 1<<30
+//@   ensures [appends] len(result) > len(buffer0) && forall(k, 0, len(buffer0), result[k].RunStart == old(buffer0[k].RunStart) && result[k].RunEnd == old(buffer0[k].RunEnd) && result[k].Face == old(buffer0[k].Face))
+//@   ensures [starts] result[len(buffer0)].RunStart == input.RunStart
+//@   ensures [ends] result[len(result)-1].RunEnd == input.RunEnd
+//@   ensures [contiguous] forall(k, len(buffer0), len(result)-1, result[k].RunEnd == result[k+1].RunStart)
+//@   ensures [non-empty] implies(input.RunStart < input.RunEnd, forall(k, len(buffer0), len(result), result[k].RunStart < result[k].RunEnd))
+//@   ensures [same-fields] forall(k, len(buffer0), len(result), sameRunFields(result[k], input))
+//@   ensures [has-face] implies(input.RunStart < input.RunEnd, forall(k, len(buffer0), len(result), result[k].Face != nil))
+//@   modifies buffer[len(buffer):cap(buffer)]
+//@   loop 1 invariant [i-range] input.RunStart <= i && i <= input.RunEnd
+//@   loop 1 invariant [current] sameRunFields(currentInput, input) && currentInput.RunStart <= i && implies(currentInput.RunStart == i, i == input.RunStart) && input.RunStart <= currentInput.RunStart
+//@   loop 1 invariant [face-at-end] implies(i == input.RunEnd && input.RunStart < input.RunEnd, currentInput.Face != nil)
+//@   loop 1 invariant [grows] len(buffer) >= len(buffer0) && len(buffer) <= len(buffer0) + (i - input.RunStart)
+//@   loop 1 invariant [prefix] forall(k, 0, len(buffer0), buffer[k].RunStart == old(buffer0[k].RunStart) && buffer[k].RunEnd == old(buffer0[k].RunEnd) && buffer[k].Face == old(buffer0[k].Face))
+//@   loop 1 invariant [chain-start] ite(len(buffer) == len(buffer0), currentInput.RunStart == input.RunStart, buffer[len(buffer0)].RunStart == input.RunStart && buffer[len(buffer)-1].RunEnd == currentInput.RunStart)
+//@   loop 1 invariant [chain] forall(k, len(buffer0), len(buffer)-1, buffer[k].RunEnd == buffer[k+1].RunStart)
+//@   loop 1 invariant [non-empty] forall(k, len(buffer0), len(buffer), buffer[k].RunStart < buffer[k].RunEnd && buffer[k].Face != nil && sameRunFields(buffer[k], input))
+//@   loop 1 invariant [frame-spare] (rid(buffer) == rid(buffer0) && off(buffer) == off(buffer0) && cap(buffer) == cap(buffer0)) || fresh(buffer)
+//
+// lookupDelimIndex: bisection over the sorted table of paired delimiters (table invariant checked on the literal).
+//@ data pairedDelimsSorted C07 : forall(k, 0, len(pairedDelims), forall(l, k+1, len(pairedDelims), pairedDelims[k] < pairedDelims[l]))
+//@ func lookupDelimIndex C07
+//@   mode int
+//@   requires [data-pairedDelimsSorted] forall(k, 0, len(pairedDelims), forall(l, k+1, len(pairedDelims), pairedDelims[k] < pairedDelims[l]))
+//@   ensures [found] implies(result >= 0, result < len(pairedDelims) && pairedDelims[result] == ch)
+//@   ensures [absent] implies(result < 0, result == -1 && forall(k, 0, len(pairedDelims), pairedDelims[k] != ch))
+//@   modifies nothing
+//@   loop 1 invariant [bounds] 0 <= lower && upper < len(pairedDelims) && lower <= upper+1
+//@   loop 1 invariant [left] forall(k, 0, lower, pairedDelims[k] < ch)
+//@   loop 1 invariant [right] forall(k, upper+1, len(pairedDelims), pairedDelims[k] > ch)
+//@   loop 1 decreases upper - lower + 1
+//
+// Vertical orientation pass: same partition contract; every rune of an output run has the run's orientation.
+//@ opaque sidewaysRune(vo unicodedata.ScriptVerticalOrientation, r rune) bool
+//@ trusted unicodedata.ScriptVerticalOrientation.Orientation
+//@   ensures [def] isSideways == sidewaysRune(sv, r)
+//@   modifies nothing
+//@ opaque scriptOrientation(s language.Script) unicodedata.ScriptVerticalOrientation
+//
+// Segmenter.reset: the three reused buffers are emptied, so Split's result depends on its arguments only (C13 shares this).
+//@ func Segmenter.reset C07 C13
+//@   mode int
+//@   ensures [emptied] len(seg.input) == 0 && len(seg.output) == 0 && len(seg.delimStack) == 0
+//@   modifies unspecified
+//
+//@ func enforceLang C07
+//@   mode int
+//@   ensures [keeps-compatible] implies(lang.UseScript(s), result == lang)
+//@   ensures [replaces] implies(!lang.UseScript(s) && has(language.ScriptToLang, s) && language.ScriptToLang[s] != 0, result == language.ScriptToLang[s])
+//@   ensures [else-unchanged] implies(!lang.UseScript(s) && !(has(language.ScriptToLang, s) && language.ScriptToLang[s] != 0), result == lang)
+//@   modifies nothing
